@@ -75,6 +75,13 @@ def gen_run(rng, cfg):
             x = rng.random()
             if long_inputs and opk in ("parse", "lex") and k == 0:
                 items = list(rng.choice(cfg["long_corpus"])[1])
+            elif opk in ("gen", "visit") and x < 0.75:
+                # generator / visitor operations need an input that parses
+                if x < 0.35:
+                    items = list(rng.choice(W.STATEFUL_SNIPPETS))
+                else:
+                    pv = W.ProgGen(rng, actor=i, size=rng.choice([1, 2, 3]), depth=depth, sloppy=0.0, marks=True)
+                    items = pv.program()
             elif x < 0.6:
                 pg.scopes = [{}]
                 items = pg.program()
